@@ -1004,14 +1004,101 @@ def gen_moved_case(rng):
   return {'kind': 'history', 'G': {'heap': heap}, 'spec': spec, 'steps': steps, 'moved': True, 'aliased': False}
 
 
-def gen_case(rng, kind=None):
+def unsorted_keys(rng, n, ints=False):
+  """`n` distinct dict keys in an insertion order that is NOT the sorted order"""
+  pool = [5, 1, 10, 2, 0, 7] if ints else ['total', 'count', 'b', 'a', 'z', 'mean', 'k10', 'k2']
+  keys = rng.sample(pool, n)
+  while n >= 2 and keys == sorted(keys):
+    rng.shuffle(keys)
+  return keys
+
+
+def gen_dict_graph(rng):
+  """a node holding a plain Python dict attribute (also nested dicts, a dict inside a list) with >= 2 Variables whose keys
+  were inserted in non-sorted order and whose values are pairwise different; an alias attribute that sorts AFTER the dict
+  lets the body update one of them"""
+  vt = VT_MRO[rng.choice(VT_NAMES)]
+  same_type = rng.random() < 0.6
+  heap = [{'cls': rng.choice(['A', 'B', 'O']), 'attrs': []}]
+  vals = rng.sample(range(1, 40), 6)
+
+  def new_var():
+    heap.append({'vt': vt if same_type else VT_MRO[rng.choice(VT_NAMES)], 'val': vals[(len(heap) - 1) % 6], 'md': []})
+    return {'r': len(heap) - 1}
+
+  def mkdict(depth):
+    n = rng.choice([2, 2, 3])
+    items = []
+    for k in unsorted_keys(rng, n, ints=rng.random() < 0.2):
+      r = rng.random()
+      if depth > 0 and r < 0.25:
+        items.append([k, mkdict(depth - 1)])
+      elif depth > 0 and r < 0.35:
+        items.append([k, {'l': [mkdict(depth - 1), new_var()]}])
+      elif r < 0.45 and depth == 0:
+        items.append([k, {'a': rng.randrange(0, 10)}])
+      else:
+        items.append([k, new_var()])
+    return {'d': items}
+
+  shape = rng.choice(['dict', 'dict', 'list-of-dict', 'two-dicts'])
+  if shape == 'dict':
+    heap[0]['attrs'].append(['d', mkdict(1)])
+  elif shape == 'list-of-dict':
+    heap[0]['attrs'].append(['d', {'l': [mkdict(0), mkdict(1)]}])
+  else:
+    heap[0]['attrs'].append(['stats', mkdict(0)])
+    heap[0]['attrs'].append(['d', mkdict(1)])
+  var_addrs = [i for i, o in enumerate(heap) if 'vt' in o]
+  for nm in rng.sample(['x', 'y', 'zz'], rng.choice([1, 2])):  # aliases of Variables that live in the dict (sort after it)
+    heap[0]['attrs'].append([nm, {'r': rng.choice(var_addrs)}])
+  if rng.random() < 0.3:  # a parent holding the node
+    heap.append({'cls': 'C', 'attrs': [['child', {'r': 0}], ['w', {'r': rng.choice(var_addrs)}]]})
+  return {'heap': heap}
+
+
+def dict_roundtrip_oracle(ctx, case):
+  """split / merge / update directly on the dict-holding graph: every path keeps its own Variable value"""
+  G = case['G']
+  objs, _ = build(G)
+  obs = Obs(objs)
+  n0 = obs.n0
+  root = objs[0]
+  before = canon_id(obs.snapshot([root]), n0)
+  where = {k: case[k] for k in ('kind', 'G')}
+  try:
+    clone = nnx.merge(*nnx.split(root))
+    o2 = Obs([clone])
+    c2 = canon_id(o2.snapshot([clone]), 0)
+    o1 = Obs([root])
+    c1 = canon_id(o1.snapshot([root]), 0)
+    if c1 != c2:
+      ctx.violation('split-merge-dict-attribute', f'merge(split(m)) differs from m for a module holding a plain dict: {_first_diff(c2, c1)}', dict(where, got=c2, want=c1))
+      return
+    nnx.update(root, nnx.state(root))
+    after = canon_id(obs.snapshot([root]), n0)
+    if after != before:
+      ctx.violation('update-state-dict-attribute', f'update(m, state(m)) changes m for a module holding a plain dict: {_first_diff(after, before)}', dict(where, got=after, want=before))
+  except Exception as e:
+    ctx.violation('split-merge-dict-attribute', f'split / merge / update raised {type(e).__name__} on a module holding a plain dict', where)
+
+
+def gen_dict_case(rng):
+  case = gen_case(rng, kind=rng.choice(['cond', 'switch', 'remat', 'fori', 'while', 'jit', 'remat', 'cond']), G=gen_dict_graph(rng))
+  case['dictcase'] = True
+  return case
+
+
+def gen_case(rng, kind=None, G=None):
   if kind is None and rng.random() < 0.1:
     return gen_twin_case(rng)
   if kind is None and rng.random() < 0.08:
     return gen_moved_case(rng)
   if kind is None and rng.random() < 0.09:
     return gen_falsy_case(rng)
-  G = gen_graph(rng)
+  if kind is None and rng.random() < 0.1:
+    return gen_dict_case(rng)
+  G = G or gen_graph(rng)
   heap = G['heap']
   kind = kind or rng.choices(['jit', 'remat', 'cond', 'switch', 'fori', 'while', 'cached_partial'], [38, 12, 10, 8, 12, 8, 12])[0]
   if kind == 'cached_partial':
@@ -1228,7 +1315,9 @@ def check_cases(ctx, drv, cases, stream):
     ctx.count('transform', kind)
     ctx.count('calls_per_history', n_calls)
     ctx.count('aliased_args', bool(case.get('aliased')))
-    ctx.count('stream', stream + ('-twin' if case.get('twin') else '') + ('-falsy' if case.get('falsy') else '') + ('-moved' if case.get('moved') else ''))
+    ctx.count('stream', stream + ('-twin' if case.get('twin') else '') + ('-falsy' if case.get('falsy') else '') + ('-moved' if case.get('moved') else '') + ('-dict' if case.get('dictcase') else ''))
+    if case.get('dictcase'):
+      dict_roundtrip_oracle(ctx, case)
     for o in set(ops):
       ctx.count('ops_used', o)
     ctx.count('body_ops', min(len(ops), 12))
